@@ -11,5 +11,6 @@ CONSTANTS
   HistKinds = {"plain"}
   HistFails = {"none"}
   Calls <- HistCalls
-INVARIANTS TypeOK DomainRight Memoryless SigCorrect NoSignatureWithoutDomain ErrorHasNoSignatures
+INVARIANTS TypeOK DomainRight Memoryless HandedOwn SigCorrect NoSignatureWithoutDomain ErrorHasNoSignatures
+PROPERTIES ReplyStable
 CHECK_DEADLOCK FALSE
